@@ -1,0 +1,7 @@
+//go:build !verif
+
+package build
+
+import "github.com/goplus/llgo/internal/optlevel"
+
+func verifPipeline(optlevel.Level) string { return "" }
